@@ -378,7 +378,8 @@ impl<'a, S: Scenario> Shared<'a, S> {
             };
             let Some(w) = work else { return };
             // split the first levels over the shared queue, explore deeper levels locally
-            let split = w.devs < 2 && w.devs < self.cfg.max_dev && self.cfg.max_dev - w.devs >= 2;
+            let split_levels = if self.cfg.max_dev <= 2 { 1 } else { 2 };
+            let split = w.devs < self.cfg.max_dev && w.devs < split_levels;
             if split {
                 if let Some((choices, arity)) = self.execute(&w.prefix, w.devs) {
                     let mut children = Vec::new();
